@@ -20,6 +20,8 @@ EXTRA = {  # seeds that other checks should see as well
     # round 4
     "C01-G": ["C07", "C15"], "C01-H": ["C07", "C08"], "C04-G": ["C11"], "C11-G": ["C15"], "C12-H": ["C02"], "C13-G": ["C01", "C05"],
     "C13-H": ["C02"], "C18-H": ["C09"], "C03-H": ["C05"], "C05-H": ["C12"],
+    # round 5
+    "C03-I": ["C17"], "C04-I": ["C17"], "C05-J": ["C12"], "C08-J": ["C09"], "C08-I": ["C09"], "C10-I": ["C01"], "C13-J": ["C01"],
 }
 
 
